@@ -366,7 +366,7 @@ func instEcalli(interp *Interpreter, pc ProgramCounter, skipLength ProgramCounte
 		return ExitPanic, pc
 	}
 
-	return ExitHostCall | ExitReason(nuX), pc
+	return hostCallExit(nuX), pc
 }
 
 // opcode 20
